@@ -57,6 +57,9 @@ class C06(ConcBase):
                      "live block is claimed exactly once by the root, a slot, a candidate or a queued free), no_leak (never leaked: when "
                      "all threads are done the teardown has run and no block, node slot or node datum is left)")
     assumptions = [
+        "memory validity itself (no read of freed memory) is not visible in hook traces or counters: one deterministic program (miri/src/main.rs "
+        "`handles`: the last handle is in turn the root, an inner node, a token, a handle on another thread, a handle re-pointed across "
+        "trees) runs under Miri on every check; a finite run, not a proof — the theorem side is handles_stay_valid / free_once / no_leak",
         "counter arithmetic is modelled in Z: fewer than 2^32 - 2 owned handles at once and fewer than 2^31 materialised elements "
         "(the teardown decrements below zero, wrapping the u32)",
         "memory of the green tree, resolver and data is observed with a counting global allocator (live bytes return to the baseline); "
